@@ -88,14 +88,15 @@ func frSpace(kind string) []frMsg {
 }
 
 type frEnv struct {
-	kind    string // dgram | stream | http
-	env     *rpcenv.Env
-	mu      sync.Mutex
-	handled chan []byte
-	udp     map[string]*net.UDPConn
-	tcp     map[string]net.Conn
-	dead    map[string]bool
-	host    string
+	kind           string // dgram | stream | http
+	env            *rpcenv.Env
+	mu             sync.Mutex
+	handled        chan []byte
+	udp            map[string]*net.UDPConn
+	tcp            map[string]net.Conn
+	dead           map[string]bool
+	host           string
+	pendingBarrier *frMsg // dgram: the barrier datagram sent behind the last message
 }
 
 func newFrEnv(kind string) (*frEnv, error) {
@@ -171,22 +172,53 @@ func (e *frEnv) send(m frMsg) (outcome string, given []byte) {
 			e.udp[m.From] = c
 		}
 		c.Write(e.wire(m))
-		c.SetReadDeadline(time.Now().Add(25 * time.Millisecond))
+		// a barrier instead of a fixed wait: an honest one-byte datagram from a third socket is sent behind the
+		// message; the service has one receive loop, so when the barrier has been answered the message has
+		// been dealt with (the barrier is part of the trace: it lands in the receive buffer too)
+		sc := e.udp["s"]
+		if sc == nil {
+			addr, _ := net.ResolveUDPAddr("udp", e.host)
+			sc, _ = net.DialUDP("udp", nil, addr)
+			e.udp["s"] = sc
+		}
+		barrier := frMsg{From: "s", Body: []byte{frClients["s"] + 1}, Decl: 1, Crc: true}
+		sc.Write(e.wire(barrier))
+		sbuf := make([]byte, 70000)
+		sc.SetReadDeadline(time.Now().Add(3 * time.Second))
+		if n, err := sc.Read(sbuf); err != nil || n < 8 {
+			e.pendingBarrier = nil
+			return "barrier-lost", nil
+		}
+		e.pendingBarrier = &barrier
+		// what the handler was given for the message (the barrier's own hand-over is set aside)
+		var given []byte
+		handled := false
+		deadline := time.After(30 * time.Millisecond)
+	collect:
+		for got := 0; got < 2; {
+			select {
+			case b := <-e.handled:
+				got++
+				if len(b) == 1 && b[0] == barrier.Body[0] && !(len(m.Body) >= 1 && m.Body[0] == barrier.Body[0]) {
+					continue
+				}
+				given, handled = b, true
+			case <-deadline:
+				break collect
+			}
+		}
+		c.SetReadDeadline(time.Now().Add(10 * time.Millisecond))
 		buf := make([]byte, 70000)
 		n, err := c.Read(buf)
-		if err != nil || n < 8 {
-			if b, ok := wait(5 * time.Millisecond); ok {
-				return "delivered", b // (the handler ran, the answer went astray: not expected on loopback)
-			}
-			return "dropped", nil
-		}
-		if buf[6]&0x80 != 0 { // error flag: the top bit of the index
+		switch {
+		case handled:
+			return "delivered", given
+		case err == nil && n >= 8 && buf[6]&0x80 != 0: // error flag: the top bit of the index
 			return "refused", nil
+		case err == nil && n >= 8:
+			return "answered-unhandled", nil
 		}
-		if b, ok := wait(50 * time.Millisecond); ok {
-			return "delivered", b
-		}
-		return "answered-unhandled", nil
+		return "dropped", nil
 	case "stream":
 		if e.dead[m.From] {
 			return "closed", nil
@@ -207,7 +239,7 @@ func (e *frEnv) send(m frMsg) (outcome string, given []byte) {
 				tc.CloseWrite()
 			}
 		}
-		c.SetReadDeadline(time.Now().Add(60 * time.Millisecond))
+		c.SetReadDeadline(time.Now().Add(2 * time.Second))
 		hdr := make([]byte, 12)
 		n, err := readFull(c, hdr)
 		switch {
@@ -296,6 +328,10 @@ func frRun(t *tr.Writer, id int, kind string, seq []frMsg) {
 	for _, m := range seq {
 		outcome, given := e.send(m)
 		t.Emit(tr.Rec{"ev": "msg", "from": m.From, "body": frBytes(m.Body), "decl": m.Decl, "crc": m.Crc, "outcome": outcome, "given": frBytes(given)})
+		if b := e.pendingBarrier; b != nil {
+			t.Emit(tr.Rec{"ev": "msg", "from": b.From, "body": frBytes(b.Body), "decl": b.Decl, "crc": b.Crc, "outcome": "delivered", "given": frBytes(b.Body)})
+			e.pendingBarrier = nil
+		}
 	}
 }
 
